@@ -346,11 +346,11 @@ def rand_schedc(rng):
     return dict(op='tick', d=rng.choice([0, 1, 31, 60, 99, 100, 200]))
   for _ in range(rng.choice([1, 1, 2])):
     threads.append(dict(kind='env', ops=[env_op() for _ in range(rng.randrange(1, 6))]))
-  if rng.random() < 0.7:        # a transport that answers (late)
-    threads.append(dict(kind='env', ops=[dict(op='deliver', k=0, fail=False) for _ in range(rng.randrange(1, 5))]))
+  if rng.random() < 0.85:       # a transport that answers (late)
+    threads.append(dict(kind='env', ops=[dict(op='deliver', k=0, fail=False) for _ in range(rng.randrange(4, 18))]))
   return dict(fam='schedc', nworkers=nworkers, pw=pw, thr=rng.choice([100, 100, 180]), now=1000,
               mp=[rng.choice([1, 1, 2]) for _ in range(nworkers)],
-              reg0=[rng.choice(['alive', 'alive', 'alive', 'dead', 'absent']) for _ in range(nworkers)],
+              reg0=[rng.choice(['alive', 'alive', 'alive', 'alive', 'alive', 'dead', 'absent']) for _ in range(nworkers)],
               threads=threads, sched=sched_spec(rng))
 
 
@@ -402,7 +402,7 @@ def _gen_cases(ctx):
                       [dict(op='call', i=0), dict(op='deliver', k=0, fail=False), dict(op='deliver', k=0, fail=False),
                        dict(op='reg', a=0, t=990), dict(op='alive', i=0)])
   # --- schedc (round 6): run / call_and_wait step by step under the scheduler
-  for _ in range(700 if quick else 14000):
+  for _ in range(380 if quick else 8000):
     yield rand_schedc(rng)
 
 
@@ -412,7 +412,7 @@ def run_impl(case):
   if case['fam'] in ('sched', 'schedrun'):
     return lo.run_real(case)
   if case['fam'] == 'schedc':
-    return lo.run_real(case, max_steps=1500)
+    return lo.run_real(case, max_steps=1200)
   return run_live(case) if case['fam'] == 'live' else run_own(case)
 
 
@@ -1116,7 +1116,24 @@ COVER_CONFIGS = [
                   dict(kind='env', ops=[dict(op='send', w=0, alive=True), dict(op='send', w=1, alive=False),
                                         dict(op='deliver', k=1, fail=False), dict(op='deliver', k=0, fail=False),
                                         dict(op='deliver', k=0, fail=False), dict(op='deliver', k=0, fail=False)])]),
+    # round 6: composite operations (fam 'schedc'): every program point of the controller
+    dict(nworkers=1, pw=[[0], [0]], thr=100, now=1000, reg0=['alive'], mp=[1],
+         threads=[dict(kind='pool', ops=[dict(op='run', p=0, task='ok')]),
+                  dict(kind='pool', ops=[dict(op='call', p=1, w=0)]),
+                  dict(kind='env', ops=[dict(op='die', w=0), dict(op='tick', d=200), dict(op='deliver', k=0, fail=False),
+                                        dict(op='deliver', k=0, fail=False)])]),
+    dict(nworkers=1, pw=[[0]], thr=100, now=1000, reg0=['dead'], mp=[1],
+         threads=[dict(kind='pool', ops=[dict(op='run', p=0, task='raise')]),
+                  dict(kind='env', ops=[dict(op='tick', d=200), dict(op='revive', w=0), dict(op='deliver', k=0, fail=False),
+                                        dict(op='deliver', k=0, fail=False)])]),
+    dict(nworkers=2, pw=[[0, 1]], thr=100, now=1000, reg0=['alive', 'alive'], mp=[1, 2],
+         threads=[dict(kind='pool', ops=[dict(op='call_and_wait', p=0, task='ok')]),
+                  dict(kind='env', ops=[dict(op='deliver', k=0, fail=False), dict(op='deliver', k=0, fail=True)])]),
 ]
+
+
+def _is_composite_cfg(cfg):
+  return any(o['op'] in lo.COMPOSITE_OPS for t in cfg['threads'] for o in t['ops'])
 
 
 def _model_guided_stage(ctx):
@@ -1136,7 +1153,8 @@ def _model_guided_stage(ctx):
     ctx.count('sched_model_guided', 'LTS states searched', r['states'])
     todo = []
     for f in r['found']:
-      case = dict(fam='sched', sched=dict(kind='replay', choices=f['sched']), **copy.deepcopy(cfg))
+      case = dict(fam='schedc' if _is_composite_cfg(cfg) else 'sched', sched=dict(kind='replay', choices=f['sched']),
+                  **copy.deepcopy(cfg))
       todo.append((f['pp'], case, lo.run_real(case)))
     mresps = ctx.lean.ask_many([lo.model_request(case, obs['choices']) for _, case, obs in todo])
     for (pp, case, obs), mr in zip(todo, mresps):
